@@ -350,6 +350,11 @@ func runC09Fetcher(t *Tape, st *Stats) *RunResult {
 		if fo.Panicked {
 			rc.fail("C09.R1", "fetch/"+panicSig(fo.PanicVal), fmt.Sprintf("HTTPFetcher.Fetch (op %d): panic reached the caller: %v", fo.OpIdx, fo.PanicVal))
 		}
+		if !fo.TCancel.IsZero() && fo.Returned && fo.TReturn.After(fo.TCancel) {
+			// under fake time a Fetch whose every wait observes its context
+			// returns at the very instant that context ends
+			rc.fail("C09.R3", "fetch/blocked_after_cancel", fmt.Sprintf("HTTPFetcher.Fetch (op %d, caller %d): the context was cancelled at %s but Fetch only returned at %s", fo.OpIdx, fo.Caller, rel(fo.TCancel), rel(fo.TReturn)))
+		}
 		for _, x := range append([]*Exchange{fo.XBase}, fo.XDelta...) {
 			if x.Rec.Begun && x.Fault.Kind != 0 {
 				st.Faults["fetch_"+faultNames[x.Fault.Kind]]++
